@@ -174,8 +174,22 @@ class Kinds:
                     mark(st.iter, path)
                     mark(st.target, path)
                     inner = newblock(path)
-                    bind(st.target, inner, st.iter, 'elem', st,
-                         _pos(st.iter, True))
+                    rows = st.iter.elts if isinstance(
+                        st.iter, (ast.Tuple, ast.List)) else None
+                    if rows and isinstance(st.target, ast.Tuple) and all(
+                            isinstance(r_, ast.Tuple) and
+                            len(r_.elts) == len(st.target.elts)
+                            for r_ in rows):
+                        # for a, b in ((x1, y1), (x2, y2)): a is x1 or x2
+                        for i_, t_ in enumerate(st.target.elts):
+                            alt = ast.BoolOp(op=ast.Or(), values=[
+                                r_.elts[i_] for r_ in rows])
+                            ast.copy_location(alt, st.iter)
+                            bind(t_, inner, alt, 'value', st,
+                                 _pos(st.iter, True))
+                    else:
+                        bind(st.target, inner, st.iter, 'elem', st,
+                             _pos(st.iter, True))
                     walk(st.body, inner)
                     walk(st.orelse, newblock(path))
                 elif isinstance(st, ast.While):
@@ -454,7 +468,15 @@ class Kinds:
                     return LOWER
                 if fn.attr in STR_PRESERVING:
                     return self.kind(fn.value, func, extra)
-                if fn.attr in ('keys', 'copy') and not e.args:
+                if fn.attr == 'keys' and not e.args:
+                    # the keys of a NocaseDict are the names as spelled:
+                    # `x in d.keys()` compares case-sensitively (unlike
+                    # `x in d`)
+                    k = self.kind(fn.value, func, extra)
+                    if k == NOCASE:
+                        return RAWLIST
+                    return k if k in (RAWLIST, LOWERLIST, None) else UNKNOWN
+                if fn.attr == 'copy' and not e.args:
                     k = self.kind(fn.value, func, extra)
                     return k if k in (RAWLIST, LOWERLIST, NOCASE, None) \
                         else UNKNOWN
